@@ -10,3 +10,6 @@ import Spade.Properties.C04
 #print axioms Spade.C04_model_insert_keeps_flags
 #print axioms Spade.C04_model_insert_on_edge_flags
 #print axioms Spade.C04_model_insert_off_edge_flags
+#print axioms Spade.C04_model_add_keeps_flags
+#print axioms Spade.C04_model_add_marks_chain
+#print axioms Spade.C04_model_region_keeps_flags
